@@ -47,11 +47,6 @@ theorem runFull_trace (s : Split σ α) (hv : s.Valid) (flow : List α) :
   | nil => exact Or.inl rfl
   | cons blk rest => exact Or.inr (passes_noSource blk rest s.branches)
 
-/-- what becomes of one branch object during `Split.run`: a function of that branch and of the
-blocks alone -/
-def objAfter (b : Branch σ α) (bl : List (List α)) : Branch σ α :=
-  objAfterG (fun c => (finalFull bl.isEmpty c).2.1) b bl
-
 theorem finalFull_id (fwe : Bool) (b : Branch σ α) : (finalFull fwe b).2.1.id = b.id := by
   unfold finalFull
   cases b.kind <;> simp only
@@ -394,5 +389,169 @@ theorem runX_bad_bufsize (s : SplitX σ α ε) (h : s.badBufsize = true) (flow :
     (s.run flow).trace = [] ∧ (s.run flow).term = .isliceError ∧ (s.run flow).seqs = s.branches := by
   unfold SplitX.run
   simp [h]
+
+/-- a `bufsize` argument accepted by `Split.__init__` gives blocks of at least one value; the
+only accepted arguments `itertools.islice` then rejects are floats with an integral value -/
+theorem bufArgInit_valid (a : BufArg) (bs : Option Nat) (bad : Bool) (h : bufArgInit a = .ok (bs, bad)) :
+    bs ≠ some 0 ∧ (bad = true ↔ ∃ i, a = .floatInt i) := by
+  cases a with
+  | none => simp [bufArgInit] at h; obtain ⟨rfl, rfl⟩ := h; simp
+  | int i =>
+    simp only [bufArgInit] at h
+    split at h
+    · cases h
+    · simp only [Except.ok.injEq, Prod.mk.injEq] at h; obtain ⟨rfl, rfl⟩ := h
+      refine ⟨?_, by simp⟩
+      simp only [ne_eq, Option.some.injEq]; omega
+  | floatInt i =>
+    simp only [bufArgInit] at h
+    split at h
+    · cases h
+    · simp only [Except.ok.injEq, Prod.mk.injEq] at h; obtain ⟨rfl, rfl⟩ := h
+      refine ⟨?_, by simp⟩
+      simp only [ne_eq, Option.some.injEq]; omega
+  | floatFrac => simp [bufArgInit] at h
+  | bool b =>
+    cases b with
+    | true => simp [bufArgInit] at h; obtain ⟨rfl, rfl⟩ := h; simp
+    | false => simp [bufArgInit] at h
+
+/-! ## 14. every branch is given the flow, in order, once -/
+
+theorem received_append (l₁ l₂ : List (Ev α)) : received (l₁ ++ l₂) = received l₁ ++ received l₂ := by
+  induction l₁ with
+  | nil => rfl
+  | cons e r ih => cases e <;> simp [received, ih]
+
+theorem received_outs (i : Nat) (vals : List α) : received (outs i vals) = [] := by
+  induction vals with
+  | nil => rfl
+  | cons v r ih => simpa [outs, received] using ih
+
+/-- the fill loop hands over the values of the buffer in order, up to and including the one
+that raised `LenaStopFill`; all of them if none raised -/
+theorem received_fillBuf (i : Nat) (ops : Ops σ α) :
+    ∀ (s : σ) (xs : List α), received (fillBuf i ops s xs).1 <+: xs ∧
+      ((fillBuf i ops s xs).2.2 = false → received (fillBuf i ops s xs).1 = xs) := by
+  intro s xs
+  induction xs generalizing s with
+  | nil => simp [fillBuf, received]
+  | cons x xs ih =>
+    obtain ⟨s', st, hf⟩ : ∃ s' st, ops.fill s x = (s', st) := ⟨_, _, rfl⟩
+    cases st with
+    | true =>
+      rw [fillBuf_cons_stop i ops s s' x xs hf]
+      simp [received]
+    | false =>
+      rw [fillBuf_cons_ok i ops s s' x xs hf]
+      obtain ⟨i1, i2⟩ := ih s'
+      exact ⟨by simpa [received] using (List.prefix_cons_inj x).mpr i1, fun h => by simp [received, i2 h]⟩
+
+theorem received_frTrace (i : Nat) (ops : Ops σ α) (bl : List (List α)) :
+    ∀ s, received (frTrace i ops s bl) <+: bl.flatten := by
+  induction bl with
+  | nil => intro s; simp [frTrace, received]
+  | cons blk rest ih =>
+    intro s
+    obtain ⟨f1, f2⟩ := received_fillBuf i ops s blk
+    simp only [frTrace, received_append, received, received_outs, List.nil_append, List.flatten_cons]
+    by_cases h : (fillBuf i ops s blk).2.2 = true
+    · simp only [h, ↓reduceIte, received, List.append_nil]
+      exact f1.trans (List.prefix_append _ _)
+    · simp only [h, Bool.false_eq_true, ↓reduceIte]
+      rw [f2 (by simpa using h), List.append_nil]
+      exact (List.prefix_append_right_inj _).mpr (ih _)
+
+theorem received_seqTrace (i : Nat) (ops : Ops σ α) (bl : List (List α)) :
+    ∀ s, received (seqTrace i ops s bl) = bl.flatten := by
+  induction bl with
+  | nil => intro s; rfl
+  | cons blk rest ih =>
+    intro s
+    simp [seqTrace, received, received_append, received_outs, ih]
+
+/-- CONSERVATION: whatever its kind, a branch is given a prefix of the flow — the values in
+their order, none twice, none skipped; a plain Sequence gets the whole flow (cut into the
+blocks), a fill branch everything up to the value on which it signalled `LenaStopFill`, a
+Source nothing -/
+theorem branch_receives_prefix (b : Branch σ α) (bl : List (List α)) :
+    received (branchTrace b bl) <+: bl.flatten := by
+  rw [branchTrace_closedForm]
+  unfold closedForm
+  cases b.kind with
+  | source => simp [received, received_outs]
+  | fillCompute =>
+    simp only [fcTrace, received_append, received, received_outs, List.append_nil]
+    exact (received_fillBuf _ _ _ _).1
+  | fillRequest =>
+    simp only
+    split
+    · simp [received, received_outs]
+    · exact received_frTrace _ _ _ _
+  | sequence =>
+    simp only
+    split
+    · simp [received, received_outs]
+    · rw [received_seqTrace]
+      exact List.prefix_refl _
+
+theorem sequence_receives_all (b : Branch σ α) (hk : b.kind = .sequence) (bl : List (List α)) :
+    received (branchTrace b bl) = bl.flatten := by
+  rw [branchTrace_closedForm]
+  unfold closedForm
+  simp only [hk]
+  split
+  · rename_i h
+    have : bl = [] := by cases bl <;> simp_all
+    subst this
+    simp [received, received_outs]
+  · exact received_seqTrace _ _ _ _
+
+/-- in a `Split.run`: the values branch `b` is given are a prefix of the flow -/
+theorem split_branch_receives (s : Split σ α) (hv : s.Valid) (hnd : (s.branches.map (·.id)).Nodup)
+    (b : Branch σ α) (hb : b ∈ s.branches) (flow : List α) :
+    received (proj b.id (s.runTrace flow)) <+: flow := by
+  rw [projection s hv hnd b hb]
+  have := branch_receives_prefix b (blocks s.bufsize flow)
+  rwa [blocks_flatten s.bufsize hv] at this
+
+/-! ## 15. the output in the words of the property; running a Split twice -/
+
+/-- the yielded values, block by block, inside a block branch by branch, then the final results
+branch by branch -/
+theorem run_outputs_blockwise (s : Split σ α) (hv : s.Valid) (flow : List α) (hne : s.branches ≠ []) :
+    s.run flow =
+      (List.range (blocks s.bufsize flow).length).flatMap (fun k =>
+        s.branches.flatMap (fun b => outputs (contribution b (blocks s.bufsize flow) k))) ++
+      s.branches.flatMap (fun b => outputs (finalContribution b (blocks s.bufsize flow))) := by
+  rw [run_outputs_eq_schedule s hv flow hne]
+  unfold Split.schedule
+  simp only [outputs_append, outputs_flatMap]
+
+/-- RUNNING THE SAME SPLIT AGAIN: the second run is the run of a Split whose branches are the
+objects the first run left behind, each of which is determined by its own branch and the blocks
+of the first flow -/
+theorem run_twice (s : Split σ α) (hv : s.Valid) (hnd : (s.branches.map (·.id)).Nodup)
+    (hne : s.branches ≠ []) (f₁ f₂ : List α) :
+    runsObj s [f₁, f₂] =
+      [s.run f₁,
+       ({ s with branches := s.branches.map (fun b => objAfter b (blocks s.bufsize f₁)) } : Split σ α).run f₂] := by
+  have he : s.branches.isEmpty = false := by
+    cases h : s.branches with
+    | nil => exact absurd h hne
+    | cons _ _ => rfl
+  have h1 : (s.runObj f₁).1 = s.run f₁ := runObj_eq s hv f₁
+  have h2 : (s.runObj f₁).2 = { s with branches := s.branches.map (fun b => objAfter b (blocks s.bufsize f₁)) } := by
+    unfold Split.runObj
+    simp only [he, Bool.false_eq_true, ↓reduceIte, runFull_seqs s hv hnd]
+  simp only [runsObj, h1, h2]
+  congr 1
+  congr 1
+  exact runObj_eq ({ s with branches := s.branches.map (fun b => objAfter b (blocks s.bufsize f₁)) } : Split σ α) hv f₂
+
+/-- a Split run as a plain-Sequence branch (`splitRunOps`): each `run(buf)` of the enclosing
+Split's loop is `Split.run` of the nested one, on the objects its previous runs left -/
+theorem splitRunOps_run (s : Split σ α) (hv : s.Valid) (buf : List α) :
+    (splitRunOps.run s buf).1 = s.run buf := runObj_eq s hv buf
 
 end Lena.C03
